@@ -177,7 +177,7 @@ static void handle(size_t nw, char **w) {
 	else if (!strcmp(w[0], "equery") && nw == 2) {
 		/* size query: sm2_encrypt_finish with out == NULL */
 		size_t k, i, outlen = 0; int ok = 1; SM2_ENC_CTX *ctx = malloc(sizeof(*ctx));
-		memset(&key, 0, sizeof(key)); no_entropy();
+		memset(&key, 0, sizeof(key)); ent_seed(1, -1);   /* the encpre build draws its 8 nonces in init */
 		k = split_chunks(w[1], ch, MAXC);
 		if (sm2_encrypt_init(ctx) != 1) ok = 0;
 		for (i = 0; ok && i < k; i++) if (sm2_encrypt_update(ctx, ch[i].p, ch[i].n) != 1) ok = 0;
